@@ -596,6 +596,8 @@ class State:
 class Event:
     """An uninterpreted call observed during interpretation (for rules on call arguments)."""
 
+    prefix = ()  # guards of the callers' paths at the time of recording (set by the interpreter)
+
     def __init__(self, name, args, kwargs, guards, node, recv=None):
         self.name = name
         self.args = args
@@ -603,6 +605,7 @@ class Event:
         self.guards = list(guards)
         self.node = node
         self.recv = recv
+        self.full_guards = list(Event.prefix) + list(guards)
 
     def __repr__(self):
         return "Event(%s, %s, %s)" % (self.name, [show(a) for a in self.args], {k: show(v) for k, v in self.kwargs.items()})
@@ -644,6 +647,7 @@ class Interp:
         kw = {}
         for a in node.args.kwonlyargs:
             kw[a.arg] = (kwargs or {}).get(a.arg, Poly.atom(("v", "K_" + a.arg)))
+        Event.prefix = ()
         return _interp_run_with_env(self, fi, full, kw, self_cls, {})
 
     def setter_names(self):
@@ -1391,7 +1395,12 @@ class Frame:
 
     def call_function(self, fi, args, kwargs, st, node, self_cls=None):
         sub = self.I
-        res, final = _run_inlined(sub, fi, args, kwargs, self_cls, st)
+        saved = Event.prefix
+        Event.prefix = tuple(saved) + tuple(st.guards)
+        try:
+            res, final = _run_inlined(sub, fi, args, kwargs, self_cls, st)
+        finally:
+            Event.prefix = saved
         return res
 
     def call_method(self, recv, f, args, kwargs, st, node):
